@@ -790,13 +790,23 @@ func (x *batchExec) rejected(br batchRun) bool {
 // prepFormRejected: see batchRun.Rejected. Only the builder's own WithPrepFunc form ([]Result)
 // is documented; every other form is installed by replacing the node's embedded CustomNode.
 func prepFormRejected(sc *BatchSc, evs []BEv, err error, panicMsg string, ctxErr error) bool {
-	if err == nil || panicMsg != "" || sc.PrepForm == PFResults || sc.PrepErr != 0 {
+	if panicMsg != "" || sc.PrepForm == PFResults {
 		return false
 	}
-	if ctxErr != nil && errors.Is(err, ctxErr) {
+	if ctxErr != nil && err != nil && errors.Is(err, ctxErr) {
 		return false // the run reports the cancellation
 	}
-	if len(evs) == 0 {
+	sawPrep := false
+	for _, e := range evs {
+		if e.Kind == "prep" {
+			sawPrep = true
+		}
+	}
+	if !sawPrep {
+		// the implementation never consulted the prep installed through the embedded CustomNode
+		return true
+	}
+	if err == nil || sc.PrepErr != 0 {
 		return false
 	}
 	for _, e := range evs {
